@@ -17,3 +17,21 @@ GROUPS = [
     lg('walk_sort', 'h_walk_sort', ['qlisttbl_getnext', 'qlisttbl_removeobj', 'qlisttbl_sort', 'qlisttbl_clear', 'qlisttbl_free'], INST),
     lg('ctor', 'h_ctor', ['qlisttbl', 'qlisttbl_free'], [dict(TN=0)]),
 ]
+
+
+def c13(groups):
+    """C13 overlay on put / get / getmulti / remove, tables of 0..2 entries"""
+    out = []
+    for g in groups:
+        if g['name'] not in ('listtbl_put', 'listtbl_get_remove'):
+            continue
+        h = dict(g)
+        h['name'] = g['name'].replace('listtbl_', 'listtbl_c13_')
+        h['props'] = ['C13']
+        h['defines'] = list(g.get('defines', [])) + ['-DQV_C13']
+        h['instances'] = [dict(i) for i in g['instances'] if i.get('tier') != 'thorough']
+        out.append(h)
+    return out
+
+
+GROUPS = GROUPS + c13(GROUPS)
